@@ -616,6 +616,87 @@ def run_setstate(ctx, c):  # noqa: C901, PLR0912
     ctx.outcome(f'setstate:{r[0] if r[0] == "ok" else r[1]}')
 
 
+# =============================================================================================
+# (f) node metadata reached by user code (walk's f_node receives it) and grown / shrunk, then treespec methods
+
+ALIAS_KINDS = ('dict', 'odict', 'ddict')
+ALIAS_MUTATIONS = ('append', 'append2', 'pop', 'clear', 'unhashable-first', 'duplicate-last')
+ALIAS_OPS = ('unflatten', 'tree_unflatten', 'traverse', 'walk', 'tree_map', 'paths', 'accessors', 'entries', 'entry',
+             'children', 'child', 'one_level', 'repr', 'hash', 'eq', 'pickle', 'flatten_up_to', 'is_prefix', 'is_suffix',
+             'compose', 'broadcast', 'broadcast-rev', 'transform', 'copy')
+
+
+def alias_cases():
+    return [{'grid': 'alias', 'kind': k, 'arity': a, 'mutation': m, 'op': op,
+             'crash_key': f'aliased-key-list:{m}:{op}'}
+            for k in ALIAS_KINDS for a in (1, 3, 4, 5) for m in ALIAS_MUTATIONS for op in ALIAS_OPS]
+
+
+def run_alias(ctx, c):  # noqa: C901
+    import copy  # noqa: PLC0415
+    import pickle  # noqa: PLC0415
+
+    ctx.count()
+    ctx.cls(tuple(sorted((k, str(v)) for k, v in c.items())))
+    keys = [f'k{i}' for i in range(c['arity'])][::-1]
+    items = [(k, Leaf(i)) for i, k in enumerate(keys)]
+    node = {'dict': dict, 'odict': OrderedDict, 'ddict': lambda it: defaultdict(list, it)}[c['kind']](items)
+    tree = [node, Leaf(99)]
+    leaves, spec = optree.tree_flatten(tree)
+    fresh = optree.tree_structure(tree)
+    seen = []
+    spec.walk(leaves, lambda t, data, ch: seen.append(data) or ch, None)
+    lists = [d for d in seen if isinstance(d, list)] + [x for d in seen if isinstance(d, tuple) for x in d if isinstance(x, list)]
+    ctx.extra['alias-lists-reached'] += len(lists)
+    for kl in lists:
+        m = c['mutation']
+        if m == 'append':
+            kl.append('zz')
+        elif m == 'append2':
+            kl.extend(['zz', 'zy'])
+        elif m == 'pop':
+            kl.pop()
+        elif m == 'clear':
+            kl.clear()
+        elif m == 'unhashable-first' and kl:
+            kl[0] = []
+        elif m == 'duplicate-last' and kl:
+            kl[-1] = kl[0]
+    ops = {
+        'unflatten': lambda: spec.unflatten(leaves), 'tree_unflatten': lambda: optree.tree_unflatten(spec, iter(leaves)),
+        'traverse': lambda: spec.traverse(leaves), 'walk': lambda: spec.walk(leaves),
+        'tree_map': lambda: optree.tree_map(lambda x: x, spec.unflatten(leaves)),
+        'paths': spec.paths, 'accessors': spec.accessors, 'entries': lambda: spec.child(0).entries(),
+        'entry': lambda: spec.child(0).entry(c['arity'] - 1), 'children': lambda: spec.child(0).children(),
+        'child': lambda: spec.child(0).child(c['arity'] - 1), 'one_level': lambda: spec.child(0).one_level(),
+        'repr': lambda: repr(spec), 'hash': lambda: hash(spec), 'eq': lambda: (spec == fresh, fresh == spec),
+        'pickle': lambda: pickle.loads(pickle.dumps(spec)),  # noqa: S301
+        'flatten_up_to': lambda: spec.flatten_up_to(tree), 'is_prefix': lambda: (spec.is_prefix(fresh), spec <= fresh),
+        'is_suffix': lambda: (fresh.is_prefix(spec), fresh <= spec), 'compose': lambda: spec.compose(fresh).paths(),
+        'broadcast': lambda: spec.broadcast_to_common_suffix(fresh), 'broadcast-rev': lambda: fresh.broadcast_to_common_suffix(spec),
+        'transform': lambda: spec.transform(lambda s: s, lambda s: s), 'copy': lambda: copy.copy(spec).unflatten(leaves),
+    }
+    r = outcome_of(ops[c['op']])
+    if r[0] == 'ok' and c['op'] in ('unflatten', 'tree_unflatten', 'copy', 'tree_map'):
+        # a consistent result: every value in the rebuilt tree is one of the leaves that went in
+        def values(o):
+            if isinstance(o, dict):
+                for v in o.values():
+                    yield from values(v)
+            elif isinstance(o, (list, tuple)):
+                for v in o:
+                    yield from values(v)
+            else:
+                yield o
+        # (None is the engine's placeholder for a reserved key slot that the corrupted key list no longer fills)
+        stray = [v for v in values(r[1]) if v is not None and not any(v is x for x in leaves)]
+        if stray:
+            ctx.violation('aliased-key-list', f'{PROP}:aliased-key-list:stray-object-in-result', c,
+                          f'{c["op"]} after {c["mutation"]} returned a tree holding objects that are not among the leaves: '
+                          f'{[type(v).__name__ for v in stray]!r}')
+    ctx.outcome(f'alias:{r[0] if r[0] == "ok" else r[1]}')
+
+
 def e1_universe():
     from mc import e1  # noqa: PLC0415
 
@@ -625,12 +706,12 @@ def e1_universe():
 # =============================================================================================
 
 def all_cases(tier):
-    cases = depth_cases() + deep_spec_cases() + mutation_cases() + argument_cases() + setstate_cases()
+    cases = depth_cases() + deep_spec_cases() + mutation_cases() + argument_cases() + setstate_cases() + alias_cases()
     return cases
 
 
 RUNNERS = {'depth': run_depth, 'self-ref': run_depth, 'deep-spec': run_deep_spec, 'mutation': run_mutation,
-           'argument': run_argument, 'index': run_argument, 'setstate': run_setstate, 'setstate-top': run_setstate}
+           'argument': run_argument, 'index': run_argument, 'setstate': run_setstate, 'setstate-top': run_setstate, 'alias': run_alias}
 
 
 REL_SHARDS = 4  # shards 0..3 run on the release build with the default 8 MB stack: deep-spec grid only
